@@ -282,3 +282,88 @@ func verifHarness_C09_readfrom() {
 	}
 	verifAssert(false, "witness")
 }
+
+// two responses in a row on one connection: Response objects are pooled, so
+// the second answer is built in the object the first one used (sync.Pool may
+// also hand out a fresh one); nothing of the first — status, headers, trailer,
+// chunked flag, buffers — may leak into the second.
+func verifHarness_C09_second_response_in_pooled_object() {
+	verifPoolMode(1)
+	conn := &verifNetConn{failAt: -1}
+	e := verifHTTPEngine()
+	p := verifServerParser(conn, e, nil)
+	type shape struct {
+		http10, declareCL, trailer, flush bool
+		code                              int
+		n                                 int
+	}
+	pick := func(tag string) shape {
+		s := shape{code: []int{200, 404}[verifChoose(tag+"_status", 2)], n: verifChoose(tag+"_len", 3)}
+		switch verifChoose(tag+"_shape", 4) {
+		case 0: // chunked with trailer
+			s.trailer = true
+		case 1: // declared length
+			s.declareCL = true
+		case 2: // HTTP/1.0, buffered
+			s.http10 = true
+		case 3: // chunked, flushed in the middle
+			s.flush = true
+		}
+		return s
+	}
+	shapes := []shape{pick("first"), pick("second")}
+	var bodies [][]byte
+	for i, s := range shapes {
+		req := &http.Request{Method: "GET", Proto: "HTTP/1.1", ProtoMajor: 1, ProtoMinor: 1, Header: http.Header{}}
+		if s.http10 {
+			req.Proto, req.ProtoMinor = "HTTP/1.0", 0
+		}
+		res := NewResponse(p, req)
+		res.Header().Set("Date", "x")
+		res.Header().Set("Content-Type", "t")
+		res.Header().Set("X-N", string(rune('1'+i)))
+		if s.declareCL {
+			res.Header().Set("Content-Length", strconv.Itoa(s.n))
+		}
+		if s.trailer {
+			res.Header().Set("Trailer", "X-T")
+			res.Header().Set("X-T", "tv")
+		}
+		res.WriteHeader(s.code)
+		body := verifBytes("body", s.n)
+		bodies = append(bodies, body)
+		if s.n > 0 {
+			_, _ = res.Write(append([]byte(nil), body...))
+		}
+		if s.flush {
+			res.Flush()
+		}
+		(&ServerProcessor{}).flushResponse(p, res)
+	}
+	w := conn.wire()
+	pos := 0
+	for i, s := range shapes {
+		d := verifDecodeResponse(w[pos:])
+		verifAssertD(d.ok, "wire-decodes-as-one-response", "second-in-pooled-object")
+		if !d.ok {
+			return
+		}
+		pos += d.consumed
+		verifAssertD(d.code == s.code, "status", "pooled-object")
+		verifAssertD(len(d.body) == s.n && verifEqBytes(d.body, bodies[i]), "body-is-concatenation-of-writes", "pooled-object")
+		v, n := d.get("X-N")
+		verifAssertD(n == 1 && v == string(rune('1'+i)), "handler-header-present", "pooled-object")
+		if s.trailer {
+			verifAssertD(len(d.trailers) == 1 && d.trailers[0].k == "X-T" && d.trailers[0].v == "tv", "declared-trailer-delivered", "pooled-object")
+		} else {
+			verifAssertD(len(d.trailers) == 0, "no-undeclared-trailers", "pooled-object")
+			_, nt := d.get("Trailer")
+			verifAssertD(nt == 0, "no-undeclared-trailers", "header")
+		}
+		if s.declareCL || s.http10 {
+			verifAssertD(!d.chunked, "framing-follows-this-response", "pooled-object")
+		}
+	}
+	verifAssertD(pos == len(w), "nothing-after-the-response", "pooled-object")
+	verifAssert(false, "witness")
+}
